@@ -77,7 +77,7 @@ static std::string err_class(const std::string& m)
 {
 	struct { const char* pat; const char* cls; } tab[] = {
 		{"note out of range", "noteRange"}, {"Drum mode subroutine", "drumMissing"}, {"MDSDRV: Subroutine", "subMissing"},
-		{"MDSDRV: Platform command", "platformMissing"}, {"not enough parameters", "platformBad"}, {"argument must be", "platformBad"},
+		{"MDSDRV: Platform command", "platformMissing"}, {"not enough parameters", "platformBad"}, {"argument must be", "platformBad"}, {"empty platform command", "platformBad"},
 		{"MDSDRV: Instrument @", "insMissing"}, {"has wrong type", "insType"}, {"Macro track", "macroMissing"},
 		{"Pitch envelope @M", "pitchMissing"},
 	};
